@@ -12,6 +12,8 @@ CHECKS = {
          "os.Open/io.ReadAll/os.WriteFile/os.RemoveAll/os.Stat are assumed contracts over the ghost file system; normalisation (tools.Undent, TrimSpace) is uninterpreted; the generated texts are by definition Hook.Contents and Hook.upgradeables; the filter.lfs.* settings half (lfs.Attribute) and the idempotence / restore clauses are not yet under contract."),
  "C17": ("Proof over the real code of creds.(Creds).buffer: the buffer starts with exactly the two capability lines, nothing is written outside the per-item step, and every completed step appends exactly key=value LF for a value free of LF, NUL and (under protection) CR; an unsafe value returns an error and no buffer.",
          "bytes.Buffer.Write appends its argument (assumed); strings.Contains is an uninterpreted predicate; `git credential` itself is outside the proof."),
+ "C02": ("Proof over the basic HTTP download path against a ghost file system and hash model: (*basicDownloadAdapter).DoTransfer (temp file outside the object store; a stale partial file is re-hashed before it is resumed; download() is entered under its precondition), download() itself (every fallback arm - 416, non-206, bad Content-Range, server ignoring Range - re-establishes 'file content = bytes absorbed by the hasher'; success is reported only after the hash of everything written equals the OID and the rename into the object path succeeded, or a hash-valid object is already there; on every error return the final path is untouched; explicit frame), tools.(*HashingReader).Read/Hash/constructors (what is delivered without error is hashed, in order) and tools.RenameFileCopyPermissions.",
+         "assumed: os/io file operations over the ghost file system, the copy lemma for tools.CopyWithCallback (derived from the verified Read contract), request construction/sending as frames, the rely condition that other processes only place hash-valid files in the store, no modification of the temp file by others between hashing and rename. The ssh and custom adapters are not yet under contract."),
  "C10": ("Proof over lfshttp.newRequestForRetry (the request built for a redirect carries Authorization only if URL.Host is unchanged; https is never turned into http; header keys stay canonical), (*Client).DoWithRedirect (carries that to its result and bounds the chain), the recursion measures of (*lfshttp.Client).doWithRedirects and of the lfsapi doWithAuth/doWithCreds cycle (every turn extends the chain, which is cut at three requests), lfsapi.getCredURLForAPI (credentials are requested for the request's own scheme and host:port) and setRequestAuthFromURL (userinfo used only for the same origin).",
          "net/http and net/url are assumed contracts (NewRequest returns a fresh request with an empty header, Header.Set stores under the canonical key); canonical header keys of incoming requests are an assumed type invariant; tracing/handleResponse/ExtraHeadersFor are assumed frames; getCreds' use of the helper result and credential helper programs are outside the proof."),
  "C11": ("Proof over config.readGitConfig (both sinks: the value map and the extension table), keyIsUnsafe/safeKeys, (*GitFetcher).Get and git.(*Configuration).Sources/FileSource/RevisionSource/Source/ParseConfigLines: from a source restricted to safe keys only keys on the documented allow-list reach the value map and no extension property changes; values are appended in source order, Git's own configuration is the last source and Get returns the last value. Two obligations (lfs.extension.<n>.priority) are recorded known findings.",
